@@ -653,6 +653,10 @@ class Plan:
         self.twins, self.twin_mode = pair, True
         return True
 
+    def ref_name(self):
+        self.refs = getattr(self, "refs", 0) + 1
+        return f"R{self.refs}"
+
     def end_slot(self):
         if self.twin_mode and not self.twins:
             self.twins_planted += 1
@@ -708,7 +712,7 @@ def place_param_examples(plan, rng, p, version, allow_findings):
         for i in range(plan.cnt()):
             v = plan.token(kind)
             if version == 3 and rng.random() < 0.3:
-                rname = f"R{plan.n}"
+                rname = plan.ref_name()
                 refs[rname] = {"value": v}
                 p[esf][f"e{i}"] = {"$ref": f"#/components/examples/{rname}"}
             else:
@@ -786,7 +790,7 @@ def place_body_examples(plan, rng, version, allow_findings):
         for i in range(plan.cnt()):
             v = plan.body_value()
             if version == 3 and rng.random() < 0.3:
-                rname = f"R{plan.n}"
+                rname = plan.ref_name()
                 refs[rname] = {"value": v}
                 mt[esf][f"e{i}"] = {"$ref": f"#/components/examples/{rname}"}
             else:
@@ -1202,6 +1206,8 @@ def run(chk: core.Check):
         "merge cases: explicit dict x declared/required names x generator output (20% contract-violating); add_examples: each exception class, 0-6 cases with valid/invalid headers; "
         "documents: 3-8 operations, OpenAPI 3.0 (75%) / 2.0, examples at parameter example/examples (incl. $ref), schema example/examples, anyOf/oneOf/allOf branches, "
         "media type example/examples, properties (nested, composed), x-example(s); required parameters / bodies without examples; every third document may contain the listed finding shapes; "
+        "25-35% of the slots (parameter / media type / property) and 45% of the example lists carry values that are == in Python but different JSON values (0/false, 1/true, also nested in objects and arrays), "
+        "compared type-strictly (json.dumps sort_keys / textual form on the wire); "
         "non-trivial = >=2 parameters or parameters+bodies (lists), >=1 value extracted (fragments), >=3 planted examples (documents)"
     )
     chk.proofs(["Common", "C17"])
